@@ -66,6 +66,11 @@ def _vary_coroutine_table(doc: dict, rng) -> bool:
     return True
 
 
+def _fast_enough(doc: dict) -> bool:
+    sut.quiet_logging()
+    return sut.decompiles_in_time(doc)
+
+
 def _convert(doc: dict) -> dict:
     sut.quiet_logging()
     return sut.decompile_exps(doc)
@@ -166,6 +171,9 @@ def run_item(item: dict) -> dict:
     res["n_ops"] = sum(len(r["ops"]) for r in doc["routines"])
     if not ok:
         res["skipped"] = why
+        return res
+    if not forkrun(_fast_enough, doc, timeout=60):
+        res["skipped"] = "structuring needs more than 5 s of CPU (path-enumeration pathology, DESIGN.md 2.2)"
         return res
     # 1. fault-free configuration
     nat = run_case(doc, None)
@@ -368,7 +376,10 @@ def check(rep, tier: str, master: int, only_idx=None) -> None:
             rep.harness_error(f"item {it['idx']} seed {it['run_seed']}: {r}")
             continue
         if "skipped" in r:
-            agg["skipped_not_well_formed"] += 1
+            if r["skipped"].startswith("structuring"):
+                agg["skipped_too_slow"] = agg.get("skipped_too_slow", 0) + 1
+            else:
+                agg["skipped_not_well_formed"] += 1
             continue
         agg["inputs"] += 1
         agg["ops_total"] += r["n_ops"]
@@ -461,6 +472,7 @@ def check(rep, tier: str, master: int, only_idx=None) -> None:
         "samples": samples or [{"note": "no injected run finished"}],
         "inputs": agg["inputs"],
         "inputs_not_well_formed_skipped": agg["skipped_not_well_formed"],
+        "inputs_too_slow_skipped": agg.get("skipped_too_slow", 0),
         "inputs_not_run_wall_cap": agg["not_run_wall_cap"],
         "injection_chunks_not_run_wall_cap": agg["chunks_not_run_wall_cap"],
         "input_ops_total": agg["ops_total"],
